@@ -16,6 +16,7 @@
 //     `defer` (no locks);
 //   - every function is analysed from an empty lock set (no helper of the package relies on its
 //     caller's locks).
+//
 // Out of scope (DESIGN O4): gob.go and HTTPTransfer (registration-time API).
 package main
 
@@ -23,6 +24,7 @@ import (
 	"encoding/json"
 	"fmt"
 	"go/ast"
+	"go/build"
 	"go/importer"
 	"go/parser"
 	"go/token"
@@ -659,6 +661,11 @@ func main() {
 	for _, m := range matches {
 		base := filepath.Base(m)
 		if strings.HasSuffix(base, "_test.go") || base == "verif_hooks.go" || base == "gob.go" || base == "http.go" {
+			continue
+		}
+
+		// honour build constraints (version-tagged files) for the toolchain that builds the harness
+		if ok, err := build.Default.MatchFile(repo, base); err != nil || !ok {
 			continue
 		}
 
